@@ -714,6 +714,7 @@ type vgRun struct {
 	out2   string // UC: outputs of the second update
 	waited int64
 	nlines int
+	ncalls int
 	// blocked dial (UB): the next DialFunc call signals `blocked` and waits for `release`
 	readyDial bool     // UR: DialFunc returns READY connections for endpoints that are up
 	readyEPs  []string // endpoints dialled that way in the current call
@@ -1336,7 +1337,24 @@ func (r *vgRun) call(c int) (res int) {
 	vgMu.Unlock()
 	ctx, cancel := context.WithTimeout(vgCtx(c), 300*time.Millisecond)
 	defer cancel()
-	err := r.gme.Invoke(ctx, "/vg.S/M", &emptypb.Empty{}, &emptypb.Empty{})
+	// every other call of a history goes through NewStream: both entry points must route alike
+	r.ncalls++
+	var err error
+	if r.ncalls%2 == 0 {
+		var st grpc.ClientStream
+		st, err = r.gme.NewStream(ctx, &grpc.StreamDesc{}, "/vg.S/M")
+		if err == nil {
+			err = st.SendMsg(&emptypb.Empty{})
+		}
+		if err == nil {
+			err = st.CloseSend()
+		}
+		if err == nil {
+			err = st.RecvMsg(&emptypb.Empty{})
+		}
+	} else {
+		err = r.gme.Invoke(ctx, "/vg.S/M", &emptypb.Empty{}, &emptypb.Empty{})
+	}
 	vgMu.Lock()
 	defer vgMu.Unlock()
 	if err != nil || len(vgGot) == 0 {
@@ -1377,6 +1395,7 @@ func (r *vgRun) begin(timed bool) {
 	vgClk.cur = r
 	vgClk.mu.Unlock()
 	r.gme, r.closed, r.dials, r.outD, r.waited = nil, false, nil, nil, 0
+	r.ncalls = 0
 	r.base = vgCensus()
 }
 
